@@ -47,17 +47,65 @@ fn tree_eq(a: &Value, b: &Value) -> bool {
     }
 }
 
-/// serialise -> deserialise -> serialise gives the same tree
-fn round_trip<T: Serialize + DeserializeOwned>(x: &T) -> Result<(), String> {
+/// Two Debug renderings describe the same value: identical text outside numbers, numbers equal within
+/// 1e-12 relative. Catches a field that is silently dropped or defaulted by (de)serialisation, which a
+/// comparison of the two serialised forms cannot see (both would lack it).
+fn debug_eq(a: &str, b: &str) -> bool {
+    fn tokens(s: &str) -> Vec<(bool, String)> {
+        let mut out: Vec<(bool, String)> = Vec::new();
+        let cs: Vec<char> = s.chars().collect();
+        let mut i = 0;
+        while i < cs.len() {
+            let c = cs[i];
+            let starts_num = c.is_ascii_digit() || (c == '-' && i + 1 < cs.len() && cs[i + 1].is_ascii_digit() && (i == 0 || !cs[i - 1].is_alphanumeric()));
+            if starts_num && (i == 0 || !(cs[i - 1].is_alphanumeric() || cs[i - 1] == '_')) {
+                let mut j = i + 1;
+                while j < cs.len() && (cs[j].is_ascii_digit() || cs[j] == '.' || cs[j] == 'e' || cs[j] == 'E' || ((cs[j] == '-' || cs[j] == '+') && (cs[j - 1] == 'e' || cs[j - 1] == 'E'))) {
+                    j += 1;
+                }
+                out.push((true, cs[i..j].iter().collect()));
+                i = j;
+            } else {
+                match out.last_mut() {
+                    Some((false, t)) => t.push(c),
+                    _ => out.push((false, c.to_string())),
+                }
+                i += 1;
+            }
+        }
+        out
+    }
+    let (ta, tb) = (tokens(a), tokens(b));
+    ta.len() == tb.len()
+        && ta.iter().zip(tb.iter()).all(|(x, y)| {
+            if x.0 != y.0 {
+                return false;
+            }
+            if !x.0 {
+                return x.1 == y.1;
+            }
+            x.1 == y.1
+                || match (x.1.parse::<f64>(), y.1.parse::<f64>()) {
+                    (Ok(f), Ok(g)) => rel12(f, g),
+                    _ => false,
+                }
+        })
+}
+
+/// serialise -> deserialise gives back the same value, and serialising that gives the same tree
+fn round_trip<T: Serialize + DeserializeOwned + std::fmt::Debug>(x: &T) -> Result<(), String> {
     let t1 = serde_json::to_string(x).map_err(|e| format!("cannot serialise: {e}"))?;
     let v1: Value = serde_json::from_str(&t1).map_err(|e| format!("own output does not parse: {e}: {t1}"))?;
     let back: T = serde_json::from_str(&t1).map_err(|e| format!("own output does not deserialise: {e}: {t1}"))?;
     let v2 = serde_json::to_value(&back).map_err(|e| format!("cannot re-serialise: {e}"))?;
-    if tree_eq(&v1, &v2) {
-        Ok(())
-    } else {
-        Err(format!("{t1} came back as {v2}"))
+    if !tree_eq(&v1, &v2) {
+        return Err(format!("{t1} came back as {v2}"));
     }
+    let (d1, d2) = (format!("{:?}", x), format!("{:?}", back));
+    if !debug_eq(&d1, &d2) {
+        return Err(format!("{d1} came back as {d2}"));
+    }
+    Ok(())
 }
 
 fn quotes_eq(a: &PenelopeQuoteByDate, b: &PenelopeQuoteByDate) -> bool {
